@@ -27,7 +27,7 @@ RULE = ("programs: 46 fixed queries (every construct with per-input state: , || 
         "destroy A, destroy B} up to length 5 (quick) / 7 (thorough) for each program, A and B being two executions of one "
         "compiled query (same or different input, or of two compilations of the text).  Random: histories of 10-40 operations "
         "over 3 live result sets, 2 query objects per text, recompilation.  Mixed: sequences of 3-12 *different* queries (core, "
-        "DWARF words incl. high/low/address/@AT_const_value/abbrev/symbol, on sample files and on an object compiled here) run one "
+        "DWARF words incl. high/low/address/@AT_const_value/abbrev/symbol, on sample files, on an object compiled here and on pairs of generated twin files -- byte-identical .debug_info, every DIE at the same offset, but base types signed <-> unsigned and enumerators sdata <-> udata through .debug_abbrev) run one "
         "after the other in one process, each compared with its own fresh-process run.  Non-trivial: two result sets of one query were pulled "
         "alternately at least twice, or a result set was abandoned mid-way and the query executed again.  Distinct by history.")
 
@@ -428,6 +428,81 @@ def mix_files():
     return out
 
 
+TWIN_QUERIES = ["entry ?TAG_enumerator @AT_const_value", "entry ?AT_const_value ?((@AT_type)* ?TAG_enumeration_type) @AT_const_value",
+                "entry ?TAG_base_type @AT_encoding", "entry ?AT_const_value ?((@AT_type)* ?TAG_base_type (@AT_encoding == DW_ATE_signed, @AT_encoding == DW_ATE_unsigned)) @AT_const_value",
+                "entry ?AT_name name", "entry ?TAG_enumerator attribute ?AT_const_value form", "entry ?AT_byte_stride @AT_byte_stride"]
+
+
+def twin_files():
+    """Pairs of generated files with the same layout -- every DIE at the same offset, the same bytes in
+    .debug_info -- that differ in what the bytes mean: base types signed <-> unsigned, enumerators
+    DW_FORM_sdata <-> DW_FORM_udata (the forms live in .debug_abbrev), names in the other case.  Anything the
+    library remembers about one file under a key that does not name the file (an offset, an abbreviation code)
+    answers wrongly for its twin.  Returns [(path a, path b)]."""
+    import copy
+    from ..drv import BUILD
+    from ..dwgen import build_file, uleb, sleb, TAG, AT, FORM, ATE
+    from .c07 import Builder
+    d = os.path.join(BUILD, "run")
+    os.makedirs(d, exist_ok=True)
+    pairs = []
+    for k, version in enumerate((2, 4, 5)):
+        pa, pb = os.path.join(d, "c12-twin%d-a.o" % k), os.path.join(d, "c12-twin%d-b.o" % k)
+        pairs.append((pa, pb))
+        if os.path.exists(pa) and os.path.exists(pb):
+            continue
+        b = Builder(random.Random(0x7714 + k), version)
+        # only the classes whose decoding depends on other DIEs
+        b.const_values()
+        b.integrals()
+        b.strings()
+        from ..dwgen import Die, Attr, Unit, Forest
+        fa = Forest([Unit(Die(TAG["compile_unit"], [Attr(AT["name"], FORM["string"], b"twin.c")], b.top), version)])
+        fb = copy.deepcopy(fa)
+        swap = {ATE["signed"]: ATE["unsigned"], ATE["unsigned"]: ATE["signed"], ATE["signed_char"]: ATE["unsigned_char"], ATE["unsigned_char"]: ATE["signed_char"]}
+
+        def unleb(bs, signed):
+            v, sh = 0, 0
+            for x in bs:
+                v |= (x & 0x7f) << sh
+                sh += 7
+            if signed and bs[-1] & 0x40:
+                v -= 1 << sh
+            return v
+        def flipped(a):
+            """The enumerator value in the other LEB form, if the stored bytes can stay what they are."""
+            if a.form == FORM["sdata"]:
+                v = unleb(sleb(a.value), False)
+                return (FORM["udata"], v) if uleb(v) == sleb(a.value) else None
+            if a.form == FORM["udata"]:
+                v = unleb(uleb(a.value), True)
+                return (FORM["sdata"], v) if sleb(v) == uleb(a.value) else None
+            return None
+        for die in fb.all_dies():
+            if die.tag == TAG["enumeration_type"]:
+                cvs = [a for c in die.children for a in c.attrs if a.name == AT["const_value"]]
+                new = [flipped(a) for a in cvs]
+                if cvs and all(new):          # the whole enumeration or nothing: its signedness is that of all its enumerators
+                    for a, (f_, v_) in zip(cvs, new):
+                        a.form, a.value = f_, v_
+            for a in die.attrs:
+                if die.tag == TAG["base_type"] and a.name == AT["encoding"] and a.value in swap:
+                    a.value = swap[a.value]
+                elif a.name == AT["name"] and a.form == FORM["string"]:
+                    a.value = a.value.swapcase()
+        for u in fb.units:
+            u.abbrevs.entries, u.abbrevs.index, u.abbrevs.entry_offsets = [], {}, {}
+        ia, _ = fa.layout()
+        ib, _ = fb.layout()
+        da, db = build_file(fa), build_file(fb)
+        assert [x.offset for x in fa.all_dies()] == [x.offset for x in fb.all_dies()] and len(ia) == len(ib)
+        for pth, data in ((pa, da), (pb, db)):
+            tmp = pth + ".%d" % os.getpid()
+            open(tmp, "wb").write(data)
+            os.replace(tmp, pth)
+    return pairs
+
+
 def mix_ref(cache, prog, path, raw, core_inp):
     key = (prog, path, raw, core_inp)
     if key in cache:
@@ -480,13 +555,20 @@ def work_mix(task):
     ev = Evidence()
     cache = {}
     files = mix_files()
+    twins = twin_files()
     for i in range(start, start + count):
         rnd = random.Random((seed << 32) ^ (i * 2654435761 & 0xffffffff) ^ 0x12C)
         steps = []
         fset = rnd.sample(files, min(len(files), rnd.randint(1, 2)))
+        progs = MIX_DW
+        if rnd.random() < 0.3:
+            fset = list(rnd.choice(twins))
+            rnd.shuffle(fset)
+            progs = TWIN_QUERIES * 3 + MIX_DW
+            ev.label("mixed-sequence:twin-files")
         for _ in range(rnd.randint(3, 9)):
             if rnd.random() < 0.7:
-                steps.append((rnd.choice(MIX_DW), rnd.choice(fset), rnd.random() < 0.25, ""))
+                steps.append((rnd.choice(progs), rnd.choice(fset), rnd.random() < 0.25, ""))
             else:
                 p = rnd.choice(MIX_CORE)
                 ins = [x for x in CORE_INPUTS if applicable(p, x)]
@@ -535,6 +617,7 @@ def main(tier, seed):
     n = 1200 if tier == "quick" else 30000
     per = max(10, n // 48)
     mix_files()        # compile the fixture once, before the workers fork
+    twin_files()
     ev.merge(run_pool(work_mix, [(seed, s_, min(per, n - s_)) for s_ in range(0, n, per)]))
     ev.extra["mixed_sequences"] = n
     ev.extra["programs"] = len(pis)
@@ -545,7 +628,8 @@ def main(tier, seed):
                                "exhaustive=true: all interleavings up to the stated length for the fixed program list"],
                   health={"programs enumerated": ev.labels.get("exhaustive-program", 0) >= 30,
                           "random histories": ev.labels.get("random-history", 0) > 100,
-                          "mixed sequences": ev.labels.get("mixed-sequence", 0) > 100})
+                          "mixed sequences": ev.labels.get("mixed-sequence", 0) > 100,
+                          "mixed sequences over twin files (same offsets, different meaning)": ev.labels.get("mixed-sequence:twin-files", 0) > 100})
 
 
 def replay(path):
